@@ -191,6 +191,20 @@ PROPS["C08"] = {
     "assumptions": [],
 }
 
+PROPS["C19"] = {
+    "units": ["h1_chunked", "h1_transfer_encoding", "h1_codec", "h1_client_codec", "ws_frame", "multipart_payload", "multipart_field", "files_chunked", "h2_prepare_response", "http_header_map_iter", "web_payload_body", "web_form_body"],
+    "only_suffix": ["::safety"],
+    "kani": [
+        {"crate": "actix-router", "harness": "kc_hex_pair_to_char_full_domain", "kind": "complete", "quick": True, "timeout": 900,
+         "what": "quoter::hex_pair_to_char: no panic / overflow for any byte pair (CBMC checks every arithmetic and pointer operation)"},
+    ],
+    "technique": "Verus' unconditional per-function safety obligations (no arithmetic over/underflow, every index/slice in range through the R6 shim preconditions, no failed unwrap, callee preconditions, loop termination via decreases) on every extracted peer-facing parser",
+    "level_text": "deductive proof, for ALL inputs, of panic-freedom and termination of the functions under contract that handle peer-controlled bytes: HTTP/1 chunked and length decoders, the transfer encoders, server and client codecs, WebSocket header/frame parser and fragment automaton, multipart buffer and field scanners (read_stream, read_len, read_until, poll_stream), ranged file stream arithmetic, HTTP/2 response-head preparation, header-map iterators, the bytes and form extractors' collection loops. Only the `safety` obligation of each function is counted here; their functional obligations belong to C01/C02/C12/C14/C15/C16/C17/C18",
+    "level_note": "a function that is not extracted is not covered: the typed header parsers (content_disposition.rs, http/header/range.rs, info.rs, types/query.rs) are built on regex/str combinators that Verus cannot take and contain no indexing or arithmetic of their own; actix-router path.rs u16 offsets, Request::decode below httparse, NamedFile range arithmetic and the unsafe header writer (encoder.rs) are NOT under contract",
+    "not_decided": ["MessageType::encode_headers unsafe writer (raw pointer + length in sync)", "write_camel_case index arithmetic", "actix-router Path::add/skip u16 arithmetic (needs the url-length type invariant)", "NamedFile::into_response `offset + length - 1`", "typed header FromStr implementations (regex/str combinators: dependencies)", "Request::decode / HeaderIndex::record pointer arithmetic", "unbounded loops outside the extracted functions"],
+    "assumptions": ["preconditions listed for each unit under C01..C18 (buffer lengths fit usize, allocations <= isize::MAX, boundary non-empty)"],
+}
+
 _PENDING = "not claimed yet: contracts for this property are still under construction in this session"
 NOT_APPLICABLE = {("C%02d" % i): _PENDING for i in range(1, 20)}
 NOT_APPLICABLE["C06"] = "every clause is about instants (deadlines vs. arrival times, runtime timer ordering); no function contract expresses virtual time or scheduler ordering (DESIGN.md section 4 C06)"
